@@ -199,15 +199,21 @@ def run(ctx):
     h = prog.fn(TI + "::init")
     ctx.analysed(h.path)
     hs = Slicer(h.body)
-    divs = call_sites(h, lambda p, c: p.endswith("Duration::div_f64"))
+    # (the division may sit in a closure of init - `target.and_then(|d| ..)` - or be shared by both target kinds through a helper)
+    divs = []
+    for hp_ in prog.with_closures(h.path):
+        divs += call_sites(prog.funcs[hp_], lambda p, c: p.endswith("Duration::div_f64"))
+    _hs = {}
+    _hf = {}
     for s in divs:
-        srcs = hs.sources(s.expr[2][1])
+        hs_ = _hs.setdefault(s.func.path, Slicer(s.func.body))
+        srcs = hs_.sources(s.expr[2][1])
         key = "TransferInfo::init div_f64 divisor"
         if any("transfer_length" in z for z in srcs) and any("encoding_symbol_length" in z for z in srcs) and any(z.endswith("div_ceil") for z in srcs):
             r1d.ok(key, show(s.expr[2][1], 80), s.loc)
         else:
             r1d.violation(key, "pacing divisor is %s, expected ceil(transfer_length / encoding_symbol_length)" % show(s.expr[2][1], 80), s.loc)
-    r1d.floor(2, "div_f64 sites")
+    r1d.floor(1, "div_f64 sites")
     for a in field_accesses(prog, TI, "next_transfer_timestamp", funcs=[h]):
         if a["kind"] == "assign":
             key = "TransferInfo::init next_transfer_timestamp"
@@ -230,11 +236,11 @@ def run(ctx):
     # ---- R2 degenerate inputs -----------------------------------------------------------------
     r2 = ctx.rule("C14.R2", "every Duration::div_f64 / div_f32 / integer division on the transfer-start path has a divisor "
                             "guarded against zero (an empty object has zero packets)", "DOM (non-zero guard)")
-    hflow = Flow(h.body)
     for s in divs:
         key = "TransferInfo::init div_f64 non-zero divisor"
         d = s.expr[2][1]
-        dsrc = hs.sources(d)
+        hs_ = _hs.setdefault(s.func.path, Slicer(s.func.body))
+        hflow = _hf.setdefault(s.func.path, Flow(s.func.body))
         fs = hflow.facts_at(s.bb)
         ok = False
         for (a, tr) in fs:
@@ -246,14 +252,14 @@ def run(ctx):
             if a[0] == "le" and tr and show(a[1]) == "1" and ("nb_packets" in show(a[2]) or "transfer_length" in show(a[2])):
                 ok = True
         # divisor forced >= 1 by max(1)
-        if any(c[0] == "call" and c[1].endswith("::max") and "1" in [show(z) for z in c[2]] for c in walk(hs.expand(d))):
+        if any(c[0] == "call" and c[1].endswith("::max") and "1" in [show(z) for z in c[2]] for c in walk(hs_.expand(d))):
             ok = True
         if ok:
             r2.ok(key, "guarded", s.loc)
         else:
             r2.violation(key, "Duration::div_f64(%s): the divisor is 0 for an empty object (transfer_length == 0) and "
                               "div_f64 panics on a non-finite result; no dominating non-zero guard" % show(d, 60), s.loc)
-    r2.floor(2, "division sites in TransferInfo::init")
+    r2.floor(1, "division sites in TransferInfo::init")
 
     # ---- R3 last-transfer timestamps --------------------------------------------------------------
     r3 = ctx.rule("C14.R3", "the timestamps the carousel gap is measured from are written only where a transfer starts / ends: "
